@@ -499,6 +499,11 @@ class PG:
             hout = held and not kill_cache[bi]
             if kill_cache[bi]:
                 nar = ()
+            elif nar:
+                # a narrowing lasts until something the narrowed value reads is written
+                kept = tuple((e_, s_) for e_, s_ in nar if not self._kills_expr(bi, e_))
+                if len(kept) != len(nar):
+                    nar = kept
             for m, lits in self.edges[n] or []:
                 if assume and any(contradicts(self.facts, a, l) for a in assume for l in lits):
                     continue
@@ -513,8 +518,13 @@ class PG:
                             cur = d.get(l[1])
                             new = l[2] if cur is None else (cur & l[2])
                             d[l[1]] = new
-                            if new and new != l[2]:
+                            if not new:
+                                d = "infeasible"
+                                break
+                            if new != l[2]:
                                 extra.append(("in", l[1], new, l[3]))
+                    if d == "infeasible":
+                        continue   # the edge contradicts an earlier test of the same value on this path
                     if d is not None:
                         nar2 = tuple(sorted(d.items(), key=lambda kv: repr(kv[0])))
                         if extra:
@@ -525,6 +535,18 @@ class PG:
                     seen[s2] = st
                     work.append(s2)
         return True, None
+
+    def _kills_expr(self, bi, e):
+        c = self.__dict__.setdefault("_kx", {})
+        k = (bi, e)
+        if k not in c:
+            fpc = self.__dict__.setdefault("_kx_fp", {})
+            if e not in fpc:
+                fpc[e] = self.prog.expr_footprint(e, self.fn)
+            fp = fpc[e]
+            from .prog import killed_rooted
+            c[k] = bool(fp) and bool(killed_rooted(self.prog.block_effects(self.fn, bi, None), fp))
+        return c[k]
 
     def narrowing_subjects(self, acc):
         """enum-valued expressions tested more than once in this function such that the intersection of two of the
@@ -545,7 +567,9 @@ class PG:
             for i in range(len(sets)):
                 for j in range(i + 1, len(sets)):
                     x = sets[i] & sets[j]
-                    if x and x != sets[i] and x != sets[j] and acc(("in", e, x, adt)):
+                    if not x:
+                        out.add(e)   # disjoint tests: a path through both is infeasible
+                    elif x != sets[i] and x != sets[j] and acc(("in", e, x, adt)):
                         out.add(e)
         return out
 
@@ -581,23 +605,79 @@ class PG:
                     work.append(m)
         return True
 
-    def after_edge_must_pass(self, edge_pred, must_pred, assume=None):
+    def after_edge_must_pass(self, edge_pred, must_pred, assume=None, fresh_only=False):
         """For every edge accepted by edge_pred(lits): all paths from its target to a function exit pass
-        through a block with must_pred. Returns (ok, number of such edges)."""
+        through a block with must_pred. Returns (ok, number of such edges).
+        fresh_only: edges that can only be taken after a must_pred block was already passed (the same condition
+        tested again later, e.g. to compute a result flag) carry no obligation."""
+        fresh = None
+        if fresh_only:
+            # subject: the tested expression, if the function never writes what it reads (then two tests of it on one
+            # path must agree, and an edge contradicting an earlier one is not taken)
+            subj = set()
+            for n in range(len(self.nodes)):
+                for m, lits in self.edges[n] or []:
+                    if lits and edge_pred(lits):
+                        subj |= {l[1] for l in lits if l[0] == "is" and edge_pred([l])}
+            if subj:
+                fp = set()
+                for e in subj:
+                    fp |= self.prog.expr_footprint(e, self.fn)
+                from .prog import killed_rooted
+                for bi in range(len(self.body.blocks)):
+                    if fp and killed_rooted(self.prog.block_effects(self.fn, bi, None), fp):
+                        subj = set()
+                        break
+            fresh, seen, work = set(), set(), [(0, ())]
+            while work:
+                st = work.pop()
+                if st in seen:
+                    continue
+                seen.add(st)
+                n, known = st
+                if must_pred(self.nodes[n][0]):
+                    continue
+                for m, lits in self.edges[n] or []:
+                    k2 = dict(known)
+                    bad = False
+                    for l in lits or ():
+                        if l[0] == "is" and l[1] in subj:
+                            if k2.get(l[1], l[2]) != l[2]:
+                                bad = True
+                            k2[l[1]] = l[2]
+                    if bad:
+                        continue
+                    fresh.add((n, m))
+                    work.append((m, tuple(sorted(k2.items(), key=repr))))
         starts = []
         for n in range(len(self.nodes)):
             for m, lits in self.edges[n] or []:
-                if lits and edge_pred(lits):
-                    starts.append(m)
-        ok = True
-        for st in starts:
-            seen = set()
-            work = [st]
-            while work:
-                n = work.pop()
-                if n in seen:
+                if fresh is not None and (n, m) not in fresh:
                     continue
-                seen.add(n)
+                if lits and edge_pred(lits):
+                    starts.append((m, tuple(l for l in lits if edge_pred([l]))))
+        ok = True
+        from .prog import killed_rooted
+        for st, held in starts:
+            # what the start edge established stays true until something it reads is written: an edge that contradicts it
+            # before that is not taken (the same lookup tested twice, `if x.is_none() { log } .. let Some(p) = x else ..`)
+            fp = set()
+            for l in held:
+                if l[0] in ("is", "in", "notin"):
+                    fp |= self.prog.expr_footprint(l[1], self.fn)
+            kcache = {}
+
+            def kills(bi):
+                if bi not in kcache:
+                    kcache[bi] = bool(fp) and killed_rooted(self.prog.block_effects(self.fn, bi, None), fp)
+                return kcache[bi]
+            seen = set()
+            work = [(st, bool(fp))]
+            while work:
+                n, alive = work.pop()
+                if (n, alive) in seen:
+                    continue
+                seen.add((n, alive))
                 bi = self.nodes[n][0]
                 if must_pred(bi):
                     continue
@@ -605,11 +685,14 @@ class PG:
                 if k == "return":
                     ok = False
                     break
+                alive2 = alive and not kills(bi)
                 for m, lits in self.edges[n] or []:
                     if assume and any(contradicts(self.facts, a, l) for a in assume for l in lits):
                         continue
-                    if m not in seen:
-                        work.append(m)
+                    if alive2 and any(contradicts(self.facts, a, l) for a in held for l in lits):
+                        continue
+                    if (m, alive2) not in seen:
+                        work.append((m, alive2))
         return ok, len(starts)
 
     def after_edge_never_reaches(self, edge_pred, bad_pred):
